@@ -511,6 +511,8 @@ func runC13(r *Run, replay *Case) {
 			c13MissingStep(r)
 		case "varindex":
 			c13VarIndex(r)
+		case "quotedends":
+			c13QuotedEnds(r)
 		case "conv":
 			d := map[string]any{}
 			for _, a := range c13Args {
@@ -564,6 +566,7 @@ func runC13(r *Run, replay *Case) {
 	c13NameClash(r)
 	c13MissingStep(r)
 	c13VarIndex(r)
+	c13QuotedEnds(r)
 	// built-in-only pipe chains: real engine vs the Lean pipe interpreter (parsePipeExpr / evalPipe / callBuiltin), byte for byte
 	heads := []string{"s", "t", "e", "n", "lst", "obj.k", "st.Y", "missing", "'lit'", "upper(s)", "len(lst)", "digits"}
 	segs := []string{"upper", "lower", "trim", "len", "string", "escape", "default('d')", "default(t)", "default(missing)", "default('')", "default(\"s\")", "default('t')", "default(\"a, b\")", "default(\"it's, x\")", "default('5\", w') | upper", "nosuch", "upper(1)", "default", "upper()"}
@@ -744,6 +747,66 @@ func c13VarIndex(r *Run) {
 			}
 			if bad != "" {
 				c.Oracle = &Verdict{OK: false, Class: "variable-index-value:" + pos, Detail: fmt.Sprintf("%s (%s): %s has the value %s, the render gives %q", tpl, bad, e.expr, e.want, res.Out)}
+			}
+			r.Add(c)
+		}
+	}
+}
+
+// expressions that BEGIN AND END WITH A QUOTE without being one string literal (string concatenation and comparison written without spaces): the
+// conventional value in every position, the same in all of them
+func c13QuotedEnds(r *Run) {
+	env := map[string]any{"name": "Bob", "s": "mid", "a": "x", "b": "y"}
+	type qe struct{ expr, want string }
+	for _, e := range []qe{{"'Hello, '+name+'!'", "Hello, Bob!"}, {"'a'+'b'", "ab"}, {"'x'+s+'y'", "xmidy"}, {`"x"+s+"y"`, "xmidy"}, {"'<'+s+'>'", "<mid>"}, {"'p'+a+b+'q'", "pxyq"}, {"'primary'", "primary"}, {"'it''+s+''s'", ""}} {
+		if e.want == "" {
+			continue
+		}
+		for _, pos := range []string{"text", "attr", "attr-long", "if", "show", "prop"} {
+			q := `"`
+			if strings.Contains(e.expr, `"`) {
+				q = `'`
+			}
+			var tpl string
+			files := map[string]string{}
+			switch pos {
+			case "text":
+				tpl = "<p>[[{{ " + strings.ReplaceAll(e.expr, "<", "&lt;") + " }}]]</p>"
+			case "attr":
+				tpl = `<p :data-v=` + q + e.expr + q + `>[[]]</p>`
+			case "attr-long":
+				tpl = `<p v-bind:data-v=` + q + e.expr + q + `>[[]]</p>`
+			case "if":
+				tpl = `<p v-if=` + q + `(` + e.expr + `) == '` + e.want + `'` + q + `>[[T]]</p><p v-else>[[F]]</p>`
+				if q == `'` {
+					continue
+				}
+			case "show":
+				tpl = `<p v-show=` + q + e.expr + q + `>[[]]</p>`
+			case "prop":
+				tpl = `<template include="c.vuego" :v=` + q + e.expr + q + `></template>`
+				files["c.vuego"] = `<i>[[{{ v }}]]</i>`
+			}
+			files["p.vuego"] = tpl
+			res := renderPage(files, "p.vuego", env)
+			c := &Case{Name: "quoted ends " + e.expr + " in " + pos, Input: map[string]any{"stream": "quotedends", "expr": e.expr, "pos": pos, "tpl": tpl}, Impl: res.canon(), Oracle: &Verdict{OK: true},
+				Key: "quotedends|" + e.expr + "|" + pos, Tags: []string{"stream:quotedends", "pos:" + pos}}
+			out := htmlUnescape(res.Out)
+			bad := ""
+			switch {
+			case res.Err != "" || res.Panic != "" || res.Timeout:
+				bad = fmt.Sprintf("render failed: %+v", res)
+			case (pos == "text" || pos == "prop") && !strings.Contains(out, "[["+e.want+"]]"):
+				bad = "text"
+			case (pos == "attr" || pos == "attr-long") && !strings.Contains(out, `data-v="`+e.want+`"`):
+				bad = "bound attribute"
+			case pos == "if" && !strings.Contains(out, "[[T]]"):
+				bad = "condition"
+			case pos == "show" && strings.Contains(out, "display:none"):
+				bad = "v-show"
+			}
+			if bad != "" {
+				c.Oracle = &Verdict{OK: false, Class: "expression-value-differs:" + pos, Detail: fmt.Sprintf("%s (%s): %s has the value %q, the render gives %q", tpl, bad, e.expr, e.want, res.Out)}
 			}
 			r.Add(c)
 		}
